@@ -286,8 +286,14 @@ func c18Dump(v reflect.Value) any {
 	return nil
 }
 
-// roundTrip: obj is a pointer to the value.
+// roundTrip: obj is a pointer to the value.  A panic of encoding/json or of a custom (Un)MarshalJSON method is
+// recorded as "rt_panic" (the dump of the original stays in res) instead of losing the case.
 func c18RoundTrip(obj reflect.Value, res map[string]any) {
+	defer func() {
+		if r := recover(); r != nil {
+			res["rt_panic"] = fmt.Sprint(r)
+		}
+	}()
 	b1, err := json.Marshal(obj.Interface())
 	if err != nil {
 		res["j1"] = nil
@@ -299,13 +305,174 @@ func c18RoundTrip(obj reflect.Value, res map[string]any) {
 		res["rt"] = nil
 		return
 	}
-	res["rt"] = map[string]any{"v": c18Dump(back.Elem())}
+	rt := c18Dump(back.Elem())
+	res["rt"] = map[string]any{"v": rt}
 	b2, err := json.Marshal(back.Interface())
 	if err != nil {
 		res["j2"] = nil
 		return
 	}
 	res["j2"] = string(b2)
+	// decoding into a value that is NOT fresh (a client that reuses its variable):
+	// (1) the same document once more into the object just decoded must leave it as it is;
+	// (2) the document of X decoded into a copy of X itself must give what decoding it into a fresh value gives, up to
+	//     nil-versus-empty collections (encoding/json merges: keys that are present overwrite, omitted fields keep what
+	//     is there - the original's non-nil empty collections - except inside map values, which are always rebuilt).
+	res["again"] = json.Unmarshal(b1, back.Interface()) == nil && reflect.DeepEqual(c18Dump(back.Elem()), rt)
+	cp := reflect.New(obj.Type().Elem())
+	cp.Elem().Set(c18Build(obj.Type().Elem(), c18Plain(c18Dump(obj.Elem()))))
+	intoSame := json.Unmarshal(b1, cp.Interface()) == nil && reflect.DeepEqual(c18Norm(c18Dump(cp.Elem())), c18Norm(rt))
+	// (3) ... and so must decoding it into a value of the same SHAPE with other contents (every non-zero string,
+	//     number and integer of X replaced: all of them are written in the document, so all of them are overwritten):
+	//     a decoder that keeps or appends to what its target held shows here.
+	other := reflect.New(obj.Type().Elem())
+	other.Elem().Set(c18Build(obj.Type().Elem(), c18Perturb(c18Plain(c18Dump(obj.Elem())))))
+	intoOther := json.Unmarshal(b1, other.Interface()) == nil && reflect.DeepEqual(c18Norm(c18Dump(other.Elem())), c18Norm(rt))
+	res["into_orig"] = intoSame && intoOther
+	if !intoSame {
+		res["into_same_differs"] = true
+	}
+	if !intoOther {
+		res["into_other_differs"] = true
+	}
+}
+
+// c18Perturb: the same shape (nil-ness, lengths, map keys, dynamic types, booleans) with every non-empty string,
+// non-empty json.Number and non-zero integer changed.
+func c18Perturb(d any) any {
+	switch x := d.(type) {
+	case map[string]any:
+		out := map[string]any{}
+		for k, v := range x {
+			switch k {
+			case "s":
+				if h, _ := v.(string); h != "" {
+					out[k] = "7e" + h // "~" + the old text
+				} else {
+					out[k] = v
+				}
+			case "n":
+				if h, _ := v.(string); h != "" {
+					out[k] = "373737" // 777
+				} else {
+					out[k] = v
+				}
+			case "i":
+				if t, _ := v.(string); t != "0" && t != "" {
+					out[k] = "41"
+				} else {
+					out[k] = v
+				}
+			case "m":
+				l, _ := v.([]any)
+				nl := make([]any, len(l))
+				for i, e := range l {
+					kv, ok := e.([]any)
+					if ok && len(kv) == 2 {
+						nl[i] = []any{kv[0], c18Perturb(kv[1])}
+					} else {
+						nl[i] = e
+					}
+				}
+				out[k] = nl
+			case "a":
+				a, ok := v.([]any)
+				if ok && len(a) == 2 {
+					out[k] = []any{a[0], c18Perturb(a[1])}
+				} else {
+					out[k] = v
+				}
+			default:
+				out[k] = c18Perturb(v)
+			}
+		}
+		return out
+	case []any:
+		out := make([]any, len(x))
+		for i, v := range x {
+			out[i] = c18Perturb(v)
+		}
+		return out
+	}
+	return d
+}
+
+// c18Norm: a dump with every empty slice / map replaced by nil (comparison up to nil-versus-empty).
+func c18Norm(d any) any {
+	switch x := d.(type) {
+	case map[string]any:
+		if l, ok := x["l"].([]any); ok && len(l) == 0 {
+			return nil
+		}
+		if l, ok := x["m"].([]any); ok && len(l) == 0 {
+			return nil
+		}
+		out := map[string]any{}
+		for k, v := range x {
+			out[k] = c18Norm(v)
+		}
+		return out
+	case []any:
+		out := make([]any, len(x))
+		for i, v := range x {
+			out[i] = c18Norm(v)
+		}
+		return out
+	}
+	return d
+}
+
+// c18Plain turns a dump (built from Go maps / slices by c18Dump) into the shape c18Build reads (what a JSON decoder
+// would have produced: []any for pairs).
+func c18Plain(d any) any {
+	switch x := d.(type) {
+	case map[string]any:
+		out := map[string]any{}
+		for k, v := range x {
+			out[k] = c18Plain(v)
+		}
+		return out
+	case []any:
+		out := make([]any, len(x))
+		for i, v := range x {
+			out[i] = c18Plain(v)
+		}
+		return out
+	}
+	return d
+}
+
+// c18Eval evaluates a program under its own recover(): a panic of the evaluator is not this property's subject
+// (evaluator totality is C07) and is reported as skip "evalpanic".
+func c18Eval(c map[string]any) (env *esc.Environment, skip string) {
+	defer func() {
+		if r := recover(); r != nil {
+			env, skip = nil, "evalpanic"
+		}
+	}()
+	envs := c18Envs{}
+	if m, ok := c["envs"].(map[string]any); ok {
+		for k, v := range m {
+			envs[k] = fmt.Sprint(v)
+		}
+	}
+	decl, diags, err := eval.LoadYAMLBytes("main", []byte(str(c, "main")))
+	if err != nil || diags.HasErrors() || decl == nil {
+		return nil, "load"
+	}
+	ec, err := esc.NewExecContext(map[string]esc.Value{})
+	if err != nil {
+		return nil, "ctx"
+	}
+	if b, _ := c["check"].(bool); b {
+		env, _ = eval.CheckEnvironment(context.Background(), "main", decl, nil, c18Providers{}, envs, ec, true)
+	} else {
+		env, _ = eval.EvalEnvironment(context.Background(), "main", decl, nil, c18Providers{}, envs, ec)
+	}
+	if env == nil {
+		return nil, "nil"
+	}
+	return env, ""
 }
 
 type c18Provider struct{}
@@ -364,42 +531,26 @@ func c18(c map[string]any) (res map[string]any) {
 			res["rt"] = nil
 			return res
 		}
-		res["rt"] = map[string]any{"v": c18Dump(back.Elem())}
+		rt := c18Dump(back.Elem())
+		res["rt"] = map[string]any{"v": rt}
 		if b2, err := json.Marshal(back.Interface()); err == nil {
 			res["j2"] = string(b2)
 		} else {
 			res["j2"] = nil
 		}
-	case "eval":
-		envs := c18Envs{}
-		if m, ok := c["envs"].(map[string]any); ok {
-			for k, v := range m {
-				envs[k] = fmt.Sprint(v)
-			}
-		}
-		decl, diags, err := eval.LoadYAMLBytes("main", []byte(str(c, "main")))
-		if err != nil || diags.HasErrors() || decl == nil {
-			res["skip"] = "load"
-			return res
-		}
-		ec, err := esc.NewExecContext(map[string]esc.Value{})
-		if err != nil {
-			res["skip"] = "ctx"
-			return res
-		}
-		var env *esc.Environment
-		if b, _ := c["check"].(bool); b {
-			env, _ = eval.CheckEnvironment(context.Background(), "main", decl, nil, c18Providers{}, envs, ec, true)
-		} else {
-			env, _ = eval.EvalEnvironment(context.Background(), "main", decl, nil, c18Providers{}, envs, ec)
-		}
-		if env == nil {
-			res["skip"] = "nil"
+		// the same document once more into the object just decoded
+		res["again"] = json.Unmarshal([]byte(str(c, "json")), back.Interface()) == nil && reflect.DeepEqual(c18Dump(back.Elem()), rt)
+	case "eval", "evalonly":
+		env, skip := c18Eval(c)
+		if skip != "" {
+			res["skip"] = skip
 			return res
 		}
 		obj := reflect.ValueOf(env)
 		res["orig"] = map[string]any{"v": c18Dump(obj.Elem())}
-		c18RoundTrip(obj, res)
+		if str(c, "op") == "eval" {
+			c18RoundTrip(obj, res)
+		}
 	default:
 		c18fail("bad op")
 	}
